@@ -105,41 +105,89 @@ namespace c08
     {
         u32 off, size;
         int owner;
+        u32 seq; // acquisition number (newest block of an owner = highest seq)
+    };
+    // placement policies: all of them are pure functions of the set of outstanding blocks and the per-owner block count
+    enum
+    {
+        PLACE_ASC  = 0, // first fit at the LOWEST free address: every later block lies above the earlier ones
+        PLACE_DESC = 1, // first fit at the HIGHEST free address: every later block lies BELOW the earlier ones
+        PLACE_ALT  = 2  // per owner alternating lowest / highest / lowest ...: the third block of an owner lies BETWEEN its first two
     };
     struct upstream_t
     {
         alignas(4096) u8 mem[ARENA_BYTES];
         ublk b[128];
-        int  n    = 0;
-        u32  high = 0;
+        int  n     = 0;
+        int  place = PLACE_ASC;
+        u32  lo = ARENA_BYTES, hi = 0; // dirty extent since the last reset
+        u32  seq = 0;
+        u32  per_owner[16];
         u64  allocs = 0, frees = 0;
 
         void reset()
         {
-            std::memset(mem, 0xA5, high);
-            n    = 0;
-            high = 0;
+            if (hi > lo)
+                std::memset(mem + lo, 0xA5, hi - lo);
+            n   = 0;
+            lo  = ARENA_BYTES;
+            hi  = 0;
+            seq = 0;
+            std::memset(per_owner, 0, sizeof per_owner);
         }
         void* alloc(std::size_t bytes, int owner)
         {
-            u32 sz  = u32((bytes + 15) & ~std::size_t(15));
+            u32  sz      = u32((bytes + 15) & ~std::size_t(15));
+            u32  k       = per_owner[owner & 15]++;
+            bool highest = place == PLACE_DESC || (place == PLACE_ALT && (k & 1));
+            if (n == 128 || sz == 0)
+                return nullptr;
             u32 pos = 0;
             int i   = 0;
-            for (; i < n; ++i)
+            if (!highest)
             {
-                if (b[i].off - pos >= sz)
-                    break;
-                pos = b[i].off + b[i].size;
+                for (; i < n; ++i)
+                {
+                    if (b[i].off - pos >= sz)
+                        break;
+                    pos = b[i].off + b[i].size;
+                }
+                if (pos + sz > ARENA_BYTES)
+                    return nullptr;
             }
-            if (pos + sz > ARENA_BYTES || n == 128)
-                return nullptr;
+            else
+            {
+                u32 end = ARENA_BYTES;
+                i       = n;
+                for (; i > 0; --i)
+                {
+                    if (end - (b[i - 1].off + b[i - 1].size) >= sz)
+                        break;
+                    end = b[i - 1].off;
+                }
+                if (end < sz)
+                    return nullptr;
+                pos = end - sz;
+            }
             std::memmove(b + i + 1, b + i, std::size_t(n - i) * sizeof(ublk));
-            b[i] = {pos, sz, owner};
+            b[i] = {pos, sz, owner, seq++};
             ++n;
-            if (pos + sz > high)
-                high = pos + sz;
+            if (pos < lo)
+                lo = pos;
+            if (pos + sz > hi)
+                hi = pos + sz;
             ++allocs;
             return mem + pos;
+        }
+        // bytes of all outstanding blocks + the block table (what "the upstream memory" means for the digests)
+        void digest(hasher& h) const
+        {
+            for (int i = 0; i < n; ++i)
+            {
+                h.word(u64(b[i].off) | u64(b[i].size) << 32);
+                h.bytes(mem + b[i].off, b[i].size);
+            }
+            h.word(u64(n));
         }
         void free(void* p, std::size_t bytes)
         {
